@@ -63,6 +63,10 @@ func NewConfigs(n int, mod func(i int, cfg *config.Config)) []*config.Config {
 			cfg.Log.File.Filename = os.DevNull
 			cfg.SetupLogger()
 		}
+		// the test default is a 1 s leader lease; on a loaded machine (race detector, many shards)
+		// the keep-alive can miss it and the member silently steps down. No check relies on natural
+		// expiry of the *server's* lease (resignations revoke it), so use a generous lease.
+		cfg.LeaderLease = 60
 		if mod != nil {
 			mod(i, cfg)
 		}
